@@ -13,7 +13,7 @@
   The interface talks about ONE range `[first, last)`; positions are offsets from `first`.  Algorithms that take two
   ranges are therefore stated for two sub-ranges of one range (two blocks of rows of one view); copying between views of
   different arrays is C05.  Loop counters (`n = last - first`) are the `Nat` arguments.
-  sort, stable_sort, partial_sort, nth_element, rotate, partition are not transcribed: validated only.
+  sort, stable_sort, partial_sort, nth_element, rotate are not transcribed: validated only.
 -/
 import MultiProofs.SeqSpec
 
@@ -108,6 +108,56 @@ def removeFind (p : ρ → Bool) : Nat → Int → Prog ρ
   | n + 1, i => .read i fun x => if p x then removeLoop p n (i + 1) i else removeFind p n (i + 1)
 
 def removeProg (p : ρ → Bool) (n : Nat) : Prog ρ := removeFind p n 0
+
+/- `std::partition(first, first + n, p)` for bidirectional (hence random-access) iterators — stl_algo.h:1470-1493
+    `__partition(first, last, pred, bidirectional_iterator_tag)`:
+    `while(true) { while(true) if(first == last) return first; else if(pred(*first)) ++first; else break;
+                   --last; while(true) if(first == last) return first; else if(!pred(*last)) --last; else break;
+                   std::iter_swap(first, last); ++first; }`
+    `partFwd` is the first inner loop (at `(lo, hi) = (first, last)`), `partBwd` the second one after `--last`; every step
+    shrinks `hi - lo` by one, the `Nat` argument is that loop counter plus one. -/
+mutual
+def partFwd (p : ρ → Bool) : Nat → Int → Int → Prog ρ
+  | 0, lo, _ => .ret lo
+  | f + 1, lo, hi =>
+    if lo = hi then .ret lo
+    else .read lo fun x => if p x then partFwd p f (lo + 1) hi else partBwd p f lo (hi - 1)
+def partBwd (p : ρ → Bool) : Nat → Int → Int → Prog ρ
+  | 0, lo, _ => .ret lo
+  | f + 1, lo, hi =>
+    if lo = hi then .ret lo
+    else .read hi fun y => if p y then .swap lo hi (partFwd p f (lo + 1) hi) else partBwd p f lo (hi - 1)
+end
+
+def partitionProg (p : ρ → Bool) (n : Nat) : Prog ρ := partFwd p (n + 1) 0 n
+
+/-- second phase of `std::unique` — stl_algo.h:911-916 `dest = first; ++first;
+    while(++first != last) if(!pred(dest, first)) *++dest = std::move(*first); return ++dest;`  (`d` = dest, `i` = first,
+    the `Nat` argument = elements behind `first`) -/
+def uniqueLoop (eq : ρ → ρ → Bool) : Nat → Int → Int → Prog ρ
+  | 0, d, _ => .ret (d + 1)
+  | n + 1, d, i => .read d fun a => .read (i + 1) fun b =>
+      if eq a b then uniqueLoop eq n d (i + 1) else .assign (d + 1) (i + 1) (uniqueLoop eq n (d + 1) (i + 1))
+
+/-- first phase of `std::unique`: `std::__adjacent_find` — stl_algo.h:887-896 `if(first == last) return last; next = first;
+    while(++next != last) { if(pred(first, next)) return first; first = next; } return last;` followed by
+    `if(first == last) return last;` of `__unique` (position `i` = first, the `Nat` argument = elements behind it) -/
+def uniqueFind (eq : ρ → ρ → Bool) : Nat → Int → Prog ρ
+  | 0, i => .ret (i + 1)
+  | n + 1, i => .read i fun a => .read (i + 1) fun b =>
+      if eq a b then uniqueLoop eq n i (i + 1) else uniqueFind eq n (i + 1)
+
+/-- `std::unique(first, first + n, eq)` -/
+def uniqueProg (eq : ρ → ρ → Bool) (n : Nat) : Prog ρ := if n = 0 then .ret 0 else uniqueFind eq (n - 1) 0
+
+/-- reference for `unique`: drop every element equal (under `eq`) to the last KEPT one -/
+def uniqAfter (eq : ρ → ρ → Bool) : ρ → List ρ → List ρ
+  | _, [] => []
+  | a, b :: r => if eq a b then uniqAfter eq a r else b :: uniqAfter eq b r
+
+def uniq (eq : ρ → ρ → Bool) : List ρ → List ρ
+  | [] => []
+  | a :: r => a :: uniqAfter eq a r
 
 /-- reference for `is_sorted`: no element is smaller than its predecessor -/
 def adjSorted (lt : ρ → ρ → Bool) : List ρ → Bool
